@@ -723,7 +723,15 @@ def index(I, v, idx):
         if m is not None:
             return I.call_value(_pyvc().BoundMethod(v, m), [idx], {})
     if isinstance(v, _pyvc().SList):
-        if isinstance(idx, int) and 0 <= idx < len(v.prefix):
+        if isinstance(idx, int) and idx >= 0:
+            ln = v.length if not isinstance(v.length, int) else z3.IntVal(v.length)
+            if not I.path.is_valid(ln > idx):
+                if not I.path.branch(ln > idx):
+                    I.raise_py(IndexError, "list index out of range")
+            while len(v.prefix) <= idx:
+                x = v.elem_factory(I, "p%d" % len(v.prefix))
+                v.prefix.append(x)
+                v.members.append(x)
             return v.prefix[idx]
         raise OutOfFragment("index into symbolic list")
     if not is_symbolic(v) and not is_symbolic(idx):
